@@ -38,7 +38,7 @@ func weight(c *Case) int {
 		w += 100 // a direct entry is simpler than a whole request (other entries: see classify)
 	}
 	for i, f := range c.Fields {
-		w += f.Opt * 10
+		w += f.Opt * 20
 		if f.Def != "" {
 			w += 10
 			if f.Def != "3" && f.Def != "a" {
@@ -122,6 +122,16 @@ func candidates(c *Case) []*Case {
 		switch f.Opt {
 		case OptNotDep:
 			mod(j, func(f *Field, _ *Tok) { f.Opt = OptDep })
+			{ // optional=!dep → optional=dep with the dependency supplied (same resolved optionality)
+				n := cloneCase(c)
+				n.Fields[j].Opt = OptDep
+				d := f.Dep
+				n.Toks[d] = validTok(n.Fields[d], delivery(c.Entry, n.Fields[d]))
+				if n.Toks[j].T == "absent" {
+					n.Toks[j] = validTok(n.Fields[j], dc)
+				}
+				out = append(out, n)
+			}
 			mod(j, func(f *Field, _ *Tok) { f.Opt = OptPlain })
 			mod(j, func(f *Field, _ *Tok) { f.Opt = OptNone })
 		case OptDep:
@@ -181,6 +191,14 @@ func candidates(c *Case) []*Case {
 				})
 			}
 		}
+		if x, ok := c.Toks[j].get("x"); ok && f.Kind == KNested {
+			// the inner field on its own
+			mod(j, func(f *Field, t *Tok) {
+				in := f.inner()
+				in.Opt, in.Dep, in.Src = f.Opt, f.Dep, f.Src
+				*f, *t = in, x
+			})
+		}
 		if f.Kind != KInt {
 			// a plain int in its place (keeping only optionality), with a valid value if one was supplied
 			mod(j, func(f *Field, t *Tok) {
@@ -237,6 +255,29 @@ func shrink(c *Case, fd *finding) (*Case, *finding) {
 		}
 	}
 	return cur, curFd
+}
+
+// fieldWeight orders fields for the canonical representative (plain fields first).
+func fieldWeight(f Field) int {
+	return weight(&Case{Fields: []Field{f}, Toks: []Tok{tA()}})
+}
+
+// canonicalOrder moves the plainer field first when the failure does not depend on the order,
+// so that every shard reports the same representative of a class.
+func canonicalOrder(c *Case, fd *finding) (*Case, *finding) {
+	if len(c.Fields) != 2 || fieldWeight(c.Fields[0]) <= fieldWeight(c.Fields[1]) {
+		return c, fd
+	}
+	n := &Case{Entry: c.Entry, Fields: []Field{c.Fields[1], c.Fields[0]}, Toks: []Tok{c.Toks[1], c.Toks[0]}}
+	for i := range n.Fields {
+		if n.Fields[i].Opt >= OptDep {
+			n.Fields[i].Dep = 1 - n.Fields[i].Dep
+		}
+	}
+	if nfd, _ := check(n); nfd != nil && nfd.Kind == fd.Kind {
+		return n, nfd
+	}
+	return c, fd
 }
 
 // asJSONCase re-states a case for the plain JSON entry (numbers as numbers unless `string`).
@@ -321,6 +362,7 @@ func features(c *Case, i int, fdKind string) []string {
 // classify shrinks the failing case and names its class.
 func classify(c *Case, fd *finding) (string, *Case, *finding) {
 	sc, sfd := shrink(c, fd)
+	sc, sfd = canonicalOrder(sc, sfd)
 	var feats []string
 	if sfd.Field >= 0 && sfd.Field < len(sc.Fields) {
 		feats = features(sc, sfd.Field, sfd.Kind)
@@ -354,7 +396,12 @@ func classify(c *Case, fd *finding) (string, *Case, *finding) {
 		sort.Strings(feats)
 	}
 	if sc.Entry != EJSON {
-		if nfd, _ := check(asJSONCase(sc)); nfd == nil || nfd.Kind != sfd.Kind {
+		// reproducible through plain UnmarshalJsonBytes: report that (entry-independent cause, and the
+		// same representative whichever shard finds it first); otherwise the entry is part of the class
+		jc := asJSONCase(sc)
+		if nfd, _ := check(jc); nfd != nil && nfd.Kind == sfd.Kind && nfd.Field == sfd.Field {
+			sc, sfd = jc, nfd
+		} else {
 			feats = append(feats, "@"+sc.Entry)
 		}
 	}
